@@ -256,7 +256,15 @@ impl<'a> Sim<'a> {
             }
             Event::Fault { kind, at, len, val } => {
                 if self.tx.is_empty() {
-                    self.stats.bump("fault.skipped_idle");
+                    // nothing in flight: only noise on the line can appear (garbage bytes); this is
+                    // also the only way a type that encodes to zero bytes ever sees input
+                    if *kind == FaultKind::Insert {
+                        let n = (*len).max(1);
+                        self.tx.extend((0..n).map(|i| val.wrapping_mul(31).wrapping_add(i as u8)));
+                        self.stats.bump("fault.insert");
+                    } else {
+                        self.stats.bump("fault.skipped_idle");
+                    }
                     return Ok(());
                 }
                 let at = at % self.tx.len();
@@ -405,7 +413,8 @@ pub fn draw_event(rng: &mut Rng, sim: &Sim, sw: &Swarm) -> Event {
     let nt = sim.types.len() as u64;
     let r = rng.below(100);
     // faults need workload in flight; receives need bytes
-    if r < 38 || (sim.tx.is_empty() && sim.rx.len() == sim.cursor) {
+    let idle = sim.tx.is_empty() && sim.rx.len() == sim.cursor;
+    if r < 38 || (idle && !(r >= 60 && r < 70 && sw.faults.contains(&FaultKind::Insert))) {
         let ty = rng.below(nt) as usize;
         let pool = &sim.pool[ty];
         let mut prov = if pool.is_empty() { Prov { bytes: None, spoilers: vec![] } } else { rng.pick(pool).clone() };
@@ -431,8 +440,9 @@ pub fn draw_event(rng: &mut Rng, sim: &Sim, sw: &Swarm) -> Event {
             _ => rng.range(1, avail),
         };
         Event::Move { n: n as usize }
-    } else if r < 70 && !sw.faults.is_empty() && !sim.tx.is_empty() {
-        Event::Fault { kind: rng.pick(&sw.faults).clone(), at: rng.below(sim.tx.len() as u64) as usize, len: rng.range(1, 6) as usize, val: rng.below(256) as u8 }
+    } else if r < 70 && !sw.faults.is_empty() && (!sim.tx.is_empty() || sw.faults.contains(&FaultKind::Insert)) {
+        let kind = if sim.tx.is_empty() { FaultKind::Insert } else { rng.pick(&sw.faults).clone() };
+        Event::Fault { kind, at: rng.below(sim.tx.len().max(1) as u64) as usize, len: rng.range(1, 6) as usize, val: rng.below(256) as u8 }
     } else if r < 95 {
         Event::Recv { ty: rng.below(nt) as usize }
     } else {
